@@ -464,7 +464,7 @@ func (p *OAuthProxy) OAuthCallback(rw http.ResponseWriter, req *http.Request) {
 		return
 	}
 
-	if !reflect.DeepEqual(stateParameter, csrfParameter) {
+	if stateParameter.SessionID == "" || !reflect.DeepEqual(stateParameter, csrfParameter) {
 		tags = append(tags, "error:state_csrf_mismatch")
 		p.StatsdClient.Incr("application_error", tags, 1.0)
 		logger.WithRemoteAddress(remoteAddr).Info(
